@@ -386,7 +386,12 @@ class BackendBaseBoom(BaseException):
 
 EXC_CLASSES: list = [ValueError, RuntimeError, KeyError, TypeError, BackendBoom, AssertionError,
                      NotImplementedError, IndexError, AttributeError, StopIteration, OSError,
-                     ZeroDivisionError, RecursionError, MemoryError, SystemError, ImportError]
+                     ZeroDivisionError, RecursionError, MemoryError, SystemError, ImportError,
+                     # round 8: more of the Exception hierarchy (resource exhaustion, arithmetic, lookup, warnings
+                     # raised as errors ...): ALL of them are "any exception" of the statement
+                     OverflowError, FloatingPointError, ArithmeticError, LookupError, BufferError, EOFError, TimeoutError,
+                     ConnectionError, PermissionError, ReferenceError, NameError, UnboundLocalError, ModuleNotFoundError,
+                     StopAsyncIteration, UserWarning, DeprecationWarning, RuntimeWarning, Exception]
 BASE_EXC_CLASSES: list = [KeyboardInterrupt, BackendBaseBoom, SystemExit, GeneratorExit]
 
 
